@@ -1,8 +1,37 @@
 From Coq Require Import List NArith ZArith Bool Lia.
 Import ListNotations.
-Require Import Resolver.
+Require Import Resolver CoreSchema CoreNumber.
 Open Scope Z_scope.
 Arguments N.eqb : simpl never.
+
+(* ---- the generated tables (Gen/ResolverTables.v, re-translated from the Rust sources on every run)
+        are exactly what the proofs below are about; an edited table breaks here ---- *)
+Lemma tbl_pos_inf : f64_pos_inf_words = [s_dinf; s_dInf; s_dINF; 43%N :: s_dinf; 43%N :: s_dInf; 43%N :: s_dINF].
+Proof. reflexivity. Qed.
+Lemma tbl_neg_inf : f64_neg_inf_words = [45%N :: s_dinf; 45%N :: s_dInf; 45%N :: s_dINF].
+Proof. reflexivity. Qed.
+Lemma tbl_nan : f64_nan_words = [s_dnan; s_dNaN; s_dNAN].
+Proof. reflexivity. Qed.
+Lemma tbl_null : null_words = [s_tilde; s_null; s_NULL].
+Proof. reflexivity. Qed.
+Lemma tbl_true : true_words = [s_true].
+Proof. reflexivity. Qed.
+Lemma tbl_false : false_words = [s_false].
+Proof. reflexivity. Qed.
+Lemma tbl_prefixes : int_prefixes = [([48;120]%N, 16%N); ([48;111]%N, 8%N); ([43]%N, 10%N)].
+Proof. reflexivity. Qed.
+Lemma tbl_guarded : f64_guarded = true.
+Proof. reflexivity. Qed.
+Lemma float_char_eq c : float_char c = (is_dig c || ch c 43 || ch c 45 || ch c 46 || ch c 101 || ch c 69).
+Proof.
+  unfold float_char, in_ranges, f64_guard_chars, is_dig, ch. cbn [existsb fst snd].
+  rewrite orb_false_r.
+  assert (E : forall k, ((k <=? c)%N && (c <=? k)%N) = N.eqb c k).
+  { intros k. destruct (N.eqb_spec c k) as [->|Hne].
+    - rewrite N.leb_refl. reflexivity.
+    - destruct (N.leb_spec k c), (N.leb_spec c k); cbn; try reflexivity. exfalso; lia. }
+  rewrite !E. rewrite !orb_assoc. reflexivity.
+Qed.
 
 (* ---- lemmas ---- *)
 Lemma str_eqb_eq a b : str_eqb a b = true -> a = b.
@@ -149,7 +178,7 @@ Qed.
 
 Lemma lower_float_char c : float_char c = true -> lower c <> 105%N /\ lower c <> 110%N.
 Proof.
-  unfold float_char, lower, is_dig, ch. intros H.
+  rewrite float_char_eq. unfold lower, is_dig, ch. intros H.
   repeat (apply orb_true_iff in H; destruct H as [H|H]);
     try (apply N.eqb_eq in H; subst c; vm_compute; split; discriminate).
   apply andb_true_iff in H as [A B]. apply N.leb_le in A, B.
@@ -195,12 +224,12 @@ Proof.
   match goal with |- (let '(_, _) := ?X in _) = _ => replace X with (neg, body) by (symmetry; exact E) end.
   cbv beta iota.
   match goal with |- context [inl body ?l] => replace (inl body l) with false by (symmetry; apply float_char_inf_list; exact HB) end.
-  destruct (rust_number body) as [[m e]|]; [exact H|discriminate].
+  rewrite <- rust_number_core. destruct (rust_number body) as [[m e]|]; [exact H|discriminate].
 Qed.
 
 Lemma parse_f64_sound v f : parse_f64 v = Some f -> core_float v = Some f.
 Proof.
-  unfold parse_f64.
+  unfold parse_f64. rewrite tbl_pos_inf, tbl_neg_inf, tbl_nan, tbl_guarded.
   destruct (inl v _) eqn:E1.
   { intros H; inversion H; subst. apply inl_in in E1. cbn in E1.
     destruct E1 as [<-|[<-|[<-|[<-|[<-|[<-|[]]]]]]]; reflexivity. }
@@ -216,11 +245,11 @@ Qed.
 
 Lemma parse_tail_sound v : sound v (parse_tail v).
 Proof.
-  unfold parse_tail.
+  unfold parse_tail. rewrite tbl_null, tbl_true, tbl_false.
   destruct (inl v [s_tilde; s_null; s_NULL]) eqn:E1.
   { apply inl_in in E1. cbn in E1. destruct E1 as [<-|[<-|[<-|[]]]]; reflexivity. }
-  destruct (str_eqb v s_true) eqn:E2; [apply str_eqb_eq in E2; subst; reflexivity|].
-  destruct (str_eqb v s_false) eqn:E3; [apply str_eqb_eq in E3; subst; reflexivity|].
+  destruct (inl v [s_true]) eqn:E2; [apply inl_in in E2; cbn in E2; destruct E2 as [<-|[]]; reflexivity|].
+  destruct (inl v [s_false]) eqn:E3; [apply inl_in in E3; cbn in E3; destruct E3 as [<-|[]]; reflexivity|].
   destruct (parse_i64 v) eqn:E4; [cbn; apply parse_i64_sound; exact E4|].
   destruct (parse_f64 v) eqn:E5; [cbn; apply parse_f64_sound; exact E5|].
   reflexivity.
@@ -228,7 +257,7 @@ Qed.
 
 Theorem C08_soundness_fixed v : sound v (parse_from_cow v).
 Proof.
-  unfold parse_from_cow.
+  unfold parse_from_cow. rewrite tbl_prefixes. cbn [parse_prefixed].
   destruct (strip_prefix [48;120]%N v) as [number|] eqn:P1.
   { destruct (from_str_radix_ns number 16) eqn:R; [|apply parse_tail_sound].
     destruct (from_str_radix_ns_spec _ _ is_hexd _ to_digit_16 R) as (A & B & C).
